@@ -114,7 +114,9 @@ def campaign(ck, v, name, san, fn, cfg, n, k, bound, drop, stats, max_exec=None)
         outcomes.add((name, order))
         if bad:
             if any(b.startswith('HARNESS') for b in bad):
-                raise RuntimeError('replay divergence in %s prefix %s' % (name, x.prefix))
+                stats['diverged'] = stats.get('diverged', 0) + 1      # a prefix that no longer replays: not a verdict, counted, run reported as not exhaustive
+                ck.capped = True
+                return
             ck.violation('C09:%s:%s:n=%d,k=%d' % ('+'.join(sorted(set(bad))), name, n, k),
                          {'campaign': name, 'threads': n, 'calls_each': k, 'schedule_prefix': x.prefix, 'preemption_bound': bound, 'failed': bad, 'sanitizer': x.san[:1], 'log': (x.log or b'').decode('latin-1')[:600],
                           'result': x.result, 'trace_tail': x.trace_tail[-4:], 'replay': 'VS_PREFIX=%s h_thr <ini> <res> %d %d calls' % (','.join(map(str, x.prefix)), n, k)})
@@ -188,5 +190,5 @@ def run(ck):
     ck.assumptions += ['sequentially consistent interleavings; data-race freedom is checked per schedule by the TSan variant', 'libc internals are not scheduling points (never contended under the serialising scheduler)']
     ck.coverage(states=len(outs) + stats.get('hashed_states', 0), transitions=total, traces_validated_against_impl=total, evaluations=total, distinct_nontrivial=len(outs),
                 rule='all schedules within the preemption bound per campaign, one process each; distinct = distinct (campaign, record order with thread counts) observed',
-                campaigns=stats.get('campaigns', []), determinism_replays=2, scheduler_states_in_hashed_passes=stats.get('hashed_states', 0),
+                campaigns=stats.get('campaigns', []), determinism_replays=2, replay_divergences=stats.get('diverged', 0), scheduler_states_in_hashed_passes=stats.get('hashed_states', 0),
                 samples=[{'campaign': c['name'], 'executions': c['executions'], 'bound': c['preemption_bound'], 'complete': c['bound_completed']} for c in stats.get('campaigns', [])][:6] or [{'note': 'none'}])
